@@ -760,9 +760,12 @@ func (e *Ev) appendBuiltin(n *ast.CallExpr) Term {
 	// the old elements are where they were (in place) or copied (reallocated)
 	e.define(fmt.Sprintf("(forall ((p Int)) (! (=> (and (<= %s p) (< p (+ %s %s))) (= (select (select %s %s) p) (select (select %s %s) (+ %s (- p %s))))) :pattern ((select (select %s %s) p))))",
 		roff, roff, slen, nh, rarr, h, sarr, soff, roff, nh, rarr))
-	// the same fact triggered from the old array (to carry facts about old elements forward)
+	// the same fact triggered from the old array (to carry facts about old elements forward);
+	// opt-in (`appendfwd`) because together with the previous fact it can feed a matching loop
+	if e.u.block != nil && hasFlag(e.u.block, "appendfwd") {
 	e.define(fmt.Sprintf("(forall ((p Int)) (! (=> (and (<= %s p) (< p (+ %s %s))) (= (select (select %s %s) (+ %s (- p %s))) (select (select %s %s) p))) :pattern ((select (select %s %s) p))))",
 		soff, soff, slen, nh, rarr, roff, soff, h, sarr, h, sarr))
+	}
 	// the appended elements
 	if spread {
 		e.define(fmt.Sprintf("(forall ((p Int)) (! (=> (and (<= (+ %s %s) p) (< p (+ %s %s %s))) (= (select (select %s %s) p) (select (select %s (sarr %s)) (+ (soff %s) (- p (+ %s %s)))))) :pattern ((select (select %s %s) p))))",
